@@ -2,6 +2,7 @@ use crate::report::{Evidence, Report};
 
 pub mod c01;
 pub mod c04;
+pub mod c06;
 pub mod c12;
 pub mod c13;
 pub mod c14;
@@ -10,6 +11,7 @@ pub fn lookup(id: &str) -> Option<fn(&Report, bool) -> Evidence> {
     Some(match id {
         "C01" => c01::run,
         "C04" => c04::run,
+        "C06" => c06::run,
         "C12" => c12::run,
         "C13" => c13::run,
         "C14" => c14::run,
